@@ -17,13 +17,13 @@ From LibCSD Require Import Base.
 Local Open Scope N_scope.
 
 (* ---- keys --------------------------------------------------------------- *)
-Definition key := list N.                         (* the byte string that is hashed *)
-Record hkey := mkHKey { hk_key : key; hk_h1 : N; hk_h2 : N }.
+Definition hbytes := list N.                         (* the byte string that is hashed *)
+Record hkey := mkHKey { hk_key : hbytes; hk_h1 : N; hk_h2 : N }.
 
-Fixpoint key_eqb (a b : key) : bool :=
+Fixpoint hbytes_eqb (a b : hbytes) : bool :=
   match a, b with
   | [], [] => true
-  | x :: a', y :: b' => (x =? y) && key_eqb a' b'
+  | x :: a', y :: b' => (x =? y) && hbytes_eqb a' b'
   | _, _ => false
   end.
 
@@ -31,61 +31,61 @@ Fixpoint key_eqb (a b : key) : bool :=
    A cell is abstracted to the key whose offset it stores (the C++ stores an offset
    into the compressed text and compares the text found there: scmp,
    extractStringAndCompareDAC, extractStringAndCompareRP). *)
-Definition table := list (option key).
+Definition dh_table := list (option hbytes).
 
-Definition empty_table (m : N) : table := repeat None (N.to_nat m).
+Definition dh_empty_table (m : N) : dh_table := repeat None (N.to_nat m).
 
-Fixpoint hset {A} (l : list A) (i : nat) (x : A) : list A :=
+Fixpoint dh_set {A} (l : list A) (i : nat) (x : A) : list A :=
   match l, i with
   | [], _ => []
   | _ :: t, O => x :: t
-  | h :: t, S i' => h :: hset t i' x
+  | h :: t, S i' => h :: dh_set t i' x
   end.
-Definition hsetN {A} (l : list A) (i : N) (x : A) : list A := hset l (N.to_nat i) x.
+Definition dh_setN {A} (l : list A) (i : N) (x : A) : list A := dh_set l (N.to_nat i) x.
 
-Definition wrap64 (x : N) : N := x mod 2 ^ 64.
+Definition dh_wrap64 (x : N) : N := x mod 2 ^ 64.
 
 (* hval = (hval + h2) % tsize;   (size_t arithmetic) *)
-Definition step (m h2 hval : N) : N := wrap64 (hval + h2) mod m.
+Definition dh_step (m h2 hval : N) : N := dh_wrap64 (hval + h2) mod m.
 
 (* ---- Hash::insert / HashDAC::insert ------------------------------------- *)
-Inductive ires :=
-| IOk (c : N) (t : table)      (* returns the cell, table updated, n++ *)
+Inductive dh_ires :=
+| IOk (c : N) (t : dh_table)      (* returns the cell, table updated, n++ *)
 | IFull                         (* "Error Hash table full", returns (size_t)-1 *)
 | IOob.                         (* a read outside hashtable[0..tsize) *)
 
 (* for (size_t i = 1; i < tsize; i++) { hval = (hval + h2) % tsize; if (hashtable[hval] == -1) {...return hval;} } *)
-Fixpoint insert_loop (fuel : nat) (t : table) (k : key) (m h2 hval : N) : ires :=
+Fixpoint dh_insert_loop (fuel : nat) (t : dh_table) (k : hbytes) (m h2 hval : N) : dh_ires :=
   match fuel with
   | O => IFull
   | S f =>
-      let hval' := step m h2 hval in
+      let hval' := dh_step m h2 hval in
       match nthN t hval' with
       | None => IOob
-      | Some None => IOk hval' (hsetN t hval' (Some k))
-      | Some (Some _) => insert_loop f t k m h2 hval'
+      | Some None => IOk hval' (dh_setN t hval' (Some k))
+      | Some (Some _) => dh_insert_loop f t k m h2 hval'
       end
   end.
 
 (* note: no duplicate check and no key comparison at insertion time (as in the C++) *)
-Definition insert (t : table) (hk : hkey) : ires :=
+Definition dh_insert (t : dh_table) (hk : hkey) : dh_ires :=
   let hval := hk_h1 hk in
   match nthN t hval with
   | None => IOob
-  | Some None => IOk hval (hsetN t hval (Some (hk_key hk)))
-  | Some (Some _) => insert_loop (Nat.pred (length t)) t (hk_key hk) (lenN t) (hk_h2 hk) hval
+  | Some None => IOk hval (dh_setN t hval (Some (hk_key hk)))
+  | Some (Some _) => dh_insert_loop (Nat.pred (length t)) t (hk_key hk) (lenN t) (hk_h2 hk) hval
   end.
 
 (* the constructors' insertion loop: sorting[current].hash = hash->insert(...).
    None = some insertion did not return a cell (the C++ then calls
    setOffset((size_t)-1, ..): an out-of-bounds write) *)
-Fixpoint insert_all (t : table) (ks : list hkey) : option (table * list N) :=
+Fixpoint dh_insert_all (t : dh_table) (ks : list hkey) : option (dh_table * list N) :=
   match ks with
   | [] => Some (t, [])
   | hk :: r =>
-      match insert t hk with
+      match dh_insert t hk with
       | IOk c t' =>
-          match insert_all t' r with
+          match dh_insert_all t' r with
           | Some (t'', cs) => Some (t'', c :: cs)
           | None => None
           end
@@ -93,11 +93,11 @@ Fixpoint insert_all (t : table) (ks : list hkey) : option (table * list N) :=
       end
   end.
 
-Definition build (m : N) (ks : list hkey) : option (table * list N) :=
-  insert_all (empty_table m) ks.
+Definition dh_build (m : N) (ks : list hkey) : option (dh_table * list N) :=
+  dh_insert_all (dh_empty_table m) ks.
 
 (* ---- search -------------------------------------------------------------- *)
-Inductive sres :=
+Inductive dh_sres :=
 | SFound (c : N)               (* the cell whose stored key compared equal *)
 | SAbsent                      (* (size_t)-1 / NORESULT *)
 | SOob.
@@ -105,152 +105,152 @@ Inductive sres :=
 (* iterative form: HashBdh::search, HashBBdh::search, HashDAC::search
    for (i = 1; i < tsize; i++) { hval = (hval + h2) % tsize; if (!b_ht->access(hval)) return -1;
                                  if (scmp(..) == 0) return ..; }  return -1; *)
-Fixpoint search_loop (fuel : nat) (t : table) (q : key) (m h2 hval : N) : sres :=
+Fixpoint dh_search_loop (fuel : nat) (t : dh_table) (q : hbytes) (m h2 hval : N) : dh_sres :=
   match fuel with
   | O => SAbsent
   | S f =>
-      let hval' := step m h2 hval in
+      let hval' := dh_step m h2 hval in
       match nthN t hval' with
       | None => SOob
       | Some None => SAbsent
-      | Some (Some k') => if key_eqb k' q then SFound hval' else search_loop f t q m h2 hval'
+      | Some (Some k') => if hbytes_eqb k' q then SFound hval' else dh_search_loop f t q m h2 hval'
       end
   end.
 
-Definition search (t : table) (hq : hkey) : sres :=
+Definition dh_search (t : dh_table) (hq : hkey) : dh_sres :=
   let hval := hk_h1 hq in
   match nthN t hval with
   | None => SOob
   | Some None => SAbsent
   | Some (Some k') =>
-      if key_eqb k' (hk_key hq) then SFound hval
-      else search_loop (Nat.pred (length t)) t (hk_key hq) (lenN t) (hk_h2 hq) hval
+      if hbytes_eqb k' (hk_key hq) then SFound hval
+      else dh_search_loop (Nat.pred (length t)) t (hk_key hq) (lenN t) (hk_h2 hq) hval
   end.
 
 (* multiplicative form: Hashdh::search, StringDictionaryHASHRPDAC::locate,
    StringDictionaryHASHRPF::locate:   next = (hval + i * h2) % tsize;   (i converted to size_t) *)
-Definition probe_mul (m h1 h2 i : N) : N := wrap64 (h1 + wrap64 (i * h2)) mod m.
+Definition dh_probe_mul (m h1 h2 i : N) : N := dh_wrap64 (h1 + dh_wrap64 (i * h2)) mod m.
 
-Fixpoint search_mul_loop (fuel : nat) (t : table) (q : key) (m h1 h2 i : N) : sres :=
+Fixpoint dh_search_mul_loop (fuel : nat) (t : dh_table) (q : hbytes) (m h1 h2 i : N) : dh_sres :=
   match fuel with
   | O => SAbsent
   | S f =>
-      let next := probe_mul m h1 h2 i in
+      let next := dh_probe_mul m h1 h2 i in
       match nthN t next with
       | None => SOob
       | Some None => SAbsent
-      | Some (Some k') => if key_eqb k' q then SFound next else search_mul_loop f t q m h1 h2 (i + 1)
+      | Some (Some k') => if hbytes_eqb k' q then SFound next else dh_search_mul_loop f t q m h1 h2 (i + 1)
       end
   end.
 
-Definition search_mul (t : table) (hq : hkey) : sres :=
+Definition dh_search_mul (t : dh_table) (hq : hkey) : dh_sres :=
   let hval := hk_h1 hq in
   match nthN t hval with
   | None => SOob
   | Some None => SAbsent
   | Some (Some k') =>
-      if key_eqb k' (hk_key hq) then SFound hval
-      else search_mul_loop (Nat.pred (length t)) t (hk_key hq) (lenN t) hval (hk_h2 hq) 1
+      if hbytes_eqb k' (hk_key hq) then SFound hval
+      else dh_search_mul_loop (Nat.pred (length t)) t (hk_key hq) (lenN t) hval (hk_h2 hq) 1
   end.
 
 (* ---- bitmap b_ht, rank / select as list functions ------------------------ *)
-Definition is_occ {A} (c : option A) : bool := match c with Some _ => true | None => false end.
-Definition bits_of {A} (t : list (option A)) : list bool := map is_occ t.
+Definition dh_is_occ {A} (c : option A) : bool := match c with Some _ => true | None => false end.
+Definition dh_bits_of {A} (t : list (option A)) : list bool := map dh_is_occ t.
 
-Fixpoint count1 (l : list bool) : N :=
+Fixpoint dh_count1 (l : list bool) : N :=
   match l with
   | [] => 0
-  | b :: r => (if b then 1 else 0) + count1 r
+  | b :: r => (if b then 1 else 0) + dh_count1 r
   end.
 
 (* BitSequence::rank1(i): number of ones in positions [0..i] *)
-Definition rank1 (bs : list bool) (i : N) : N := count1 (firstn (S (N.to_nat i)) bs).
+Definition dh_rank1 (bs : list bool) (i : N) : N := dh_count1 (firstn (S (N.to_nat i)) bs).
 
 (* BitSequence::select1(k): position of the k-th one, k >= 1 *)
-Fixpoint select1_from (bs : list bool) (k pos : N) : option N :=
+Fixpoint dh_select1_from (bs : list bool) (k pos : N) : option N :=
   match bs with
   | [] => None
   | b :: r =>
-      if b then (if k =? 1 then Some pos else select1_from r (k - 1) (pos + 1))
-      else select1_from r k (pos + 1)
+      if b then (if k =? 1 then Some pos else dh_select1_from r (k - 1) (pos + 1))
+      else dh_select1_from r k (pos + 1)
   end.
-Definition select1 (bs : list bool) (k : N) : option N :=
-  if k =? 0 then None else select1_from bs k 0.
+Definition dh_select1 (bs : list bool) (k : N) : option N :=
+  if k =? 0 then None else dh_select1_from bs k 0.
 
 (* ---- IDs: Tdict* = the strings sorted by their cell (std::sort by .hash);
    the i-th string of Tdict* gets ID i, i.e. ID = b_ht->rank1(cell) ---------- *)
-Fixpoint tdict (t : table) : list key :=
+Fixpoint dh_tdict (t : dh_table) : list hbytes :=
   match t with
   | [] => []
-  | Some k :: r => k :: tdict r
-  | None :: r => tdict r
+  | Some k :: r => k :: dh_tdict r
+  | None :: r => dh_tdict r
   end.
 
-Definition id_of_cell (t : table) (c : N) : N := rank1 (bits_of t) c.
+Definition dh_id_of_cell (t : dh_table) (c : N) : N := dh_rank1 (dh_bits_of t) c.
 
 (* what the DAC/RP-based variants compare with at cell c: the rank1(c)-th string of Tdict* *)
-Definition stored_via_rank (t : table) (c : N) : option key :=
-  nthN (tdict t) (id_of_cell t c - 1).
+Definition dh_stored_via_rank (t : dh_table) (c : N) : option hbytes :=
+  nthN (dh_tdict t) (dh_id_of_cell t c - 1).
 
 (* locate: None = out-of-bounds read; Some 0 = NORESULT *)
-Definition locate (t : table) (hq : hkey) : option N :=
-  match search t hq with
-  | SFound c => Some (id_of_cell t c)
+Definition dh_locate (t : dh_table) (hq : hkey) : option N :=
+  match dh_search t hq with
+  | SFound c => Some (dh_id_of_cell t c)
   | SAbsent => Some 0
   | SOob => None
   end.
 
-Definition locate_mul (t : table) (hq : hkey) : option N :=
-  match search_mul t hq with
-  | SFound c => Some (id_of_cell t c)
+Definition dh_locate_mul (t : dh_table) (hq : hkey) : option N :=
+  match dh_search_mul t hq with
+  | SFound c => Some (dh_id_of_cell t c)
   | SAbsent => Some 0
   | SOob => None
   end.
 
 (* extract: if ((id > 0) && (id <= elements)) the id-th string of Tdict* else NULL *)
-Definition extract (t : table) (id : N) : option key :=
-  if (0 <? id) && (id <=? lenN (tdict t)) then nthN (tdict t) (id - 1) else None.
+Definition dh_extract (t : dh_table) (id : N) : option hbytes :=
+  if (0 <? id) && (id <=? lenN (dh_tdict t)) then nthN (dh_tdict t) (id - 1) else None.
 
 (* ---- the three stored representations (load options 1, 2, 3) --------------
    otable: the construction-time array of offsets, None = (size_t)-1.
    finish: b_ht = bitmap of the occupied cells, hash = LogSequence of tsize offsets (0 in empty cells) *)
-Definition otable := list (option N).
-Record ftable := mkFT { ft_bits : list bool; ft_hash : list N }.
+Definition dh_otable := list (option N).
+Record dh_ftable := mkFT { ft_bits : list bool; ft_hash : list N }.
 
-Definition finish (ot : otable) : ftable :=
-  mkFT (bits_of ot) (map (fun c => match c with Some o => o | None => 0 end) ot).
+Definition dh_finish (ot : dh_otable) : dh_ftable :=
+  mkFT (dh_bits_of ot) (map (fun c => match c with Some o => o | None => 0 end) ot).
 
 (* Hashdh: full array *)
-Definition getValuePos_dh (f : ftable) (i : N) : option N := nthN (ft_hash f) i.
-Definition getValue_dh (f : ftable) (id : N) : option N :=
-  match select1 (ft_bits f) id with Some p => nthN (ft_hash f) p | None => None end.
+Definition getValuePos_dh (f : dh_ftable) (i : N) : option N := nthN (ft_hash f) i.
+Definition getValue_dh (f : dh_ftable) (id : N) : option N :=
+  match dh_select1 (ft_bits f) id with Some p => nthN (ft_hash f) p | None => None end.
 
 (* HashBdh::load: for (i = 1; i <= n; i++) hash'[i-1] = seq[b_ht->select1(i)] *)
-Fixpoint compact_from (f : ftable) (cnt : nat) (i : N) : option (list N) :=
+Fixpoint dh_compact_from (f : dh_ftable) (cnt : nat) (i : N) : option (list N) :=
   match cnt with
   | O => Some []
   | S c =>
-      match getValue_dh f i, compact_from f c (i + 1) with
+      match getValue_dh f i, dh_compact_from f c (i + 1) with
       | Some v, Some r => Some (v :: r)
       | _, _ => None
       end
   end.
-Definition compact_B (f : ftable) (n : N) : option (list N) := compact_from f (N.to_nat n) 1.
+Definition dh_compact_B (f : dh_ftable) (n : N) : option (list N) := dh_compact_from f (N.to_nat n) 1.
 
 Definition getValuePos_B (bits : list bool) (comp : list N) (i : N) : option N :=
-  nthN comp (rank1 bits i - 1).
+  nthN comp (dh_rank1 bits i - 1).
 Definition getValue_B (comp : list N) (id : N) : option N := nthN comp (id - 1).
 
 (* HashBBdh::load: BitString of hash[select1(n)] + 1 bits, bit hash[select1(i)] set for i = 1..n *)
-Definition offbits_BB (f : ftable) (n : N) : option (list bool) :=
-  match getValue_dh f n, compact_B f n with
+Definition dh_offbits_BB (f : dh_ftable) (n : N) : option (list bool) :=
+  match getValue_dh f n, dh_compact_B f n with
   | Some last, Some offs =>
-      Some (fold_left (fun bs o => hsetN bs o true) offs (repeat false (N.to_nat (last + 1))))
+      Some (fold_left (fun bs o => dh_setN bs o true) offs (repeat false (N.to_nat (last + 1))))
   | _, _ => None
   end.
 
-Definition getValuePos_BB (bits offb : list bool) (i : N) : option N := select1 offb (rank1 bits i).
-Definition getValue_BB (offb : list bool) (id : N) : option N := select1 offb id.
+Definition getValuePos_BB (bits offb : list bool) (i : N) : option N := dh_select1 offb (dh_rank1 bits i).
+Definition getValue_BB (offb : list bool) (id : N) : option N := dh_select1 offb id.
 
 (* ---- nearest_prime (HashUtils.h) ------------------------------------------
    inner loop   for (i = 3; i < sqrt_prime; i += 2) if (prime % i == 0) break;
@@ -286,16 +286,16 @@ Definition nearest_prime (fuel : nat) (n : N) : option N := nearest_prime_loop f
 Definition hk_ok (m : N) (hk : hkey) : bool :=
   (hk_h1 hk <? m) && (hk_h2 hk <? m) && (N.gcd (hk_h2 hk) m =? 1).
 
-Fixpoint key_in (k : key) (l : list key) : bool :=
+Fixpoint hbytes_in (k : hbytes) (l : list hbytes) : bool :=
   match l with
   | [] => false
-  | x :: r => key_eqb x k || key_in k r
+  | x :: r => hbytes_eqb x k || hbytes_in k r
   end.
-Fixpoint keys_nodup (l : list key) : bool :=
+Fixpoint hbytes_nodup (l : list hbytes) : bool :=
   match l with
   | [] => true
-  | x :: r => negb (key_in x r) && keys_nodup r
+  | x :: r => negb (hbytes_in x r) && hbytes_nodup r
   end.
 
-Definition build_ok (m : N) (ks : list hkey) : bool :=
-  (m <? 2 ^ 32) && (lenN ks <=? m) && forallb (hk_ok m) ks && keys_nodup (map hk_key ks).
+Definition dh_build_ok (m : N) (ks : list hkey) : bool :=
+  (m <? 2 ^ 32) && (lenN ks <=? m) && forallb (hk_ok m) ks && hbytes_nodup (map hk_key ks).
